@@ -166,6 +166,44 @@ def run(seed=0, rounds=3):
             i0 = np.array([rng.randrange(shp[0]) for _ in range(3)])
             i1 = np.array([rng.randrange(shp[1]) for _ in range(3)])
             check("getitem-fancy", lambda a, p, q: S.sym_getitem_fancy(a, (_symidx(p), _symidx(q))), lambda a, p, q: a[p, q], x, i0, i1)
+    # unsigned 8-bit elements (bit-vector terms): numpy computes same-dtype arithmetic modulo 256 and promotes the
+    # VALUE when the other operand is wider
+    import z3
+
+    def bv(a):
+        return S.new(a.shape, lambda idx: z3.BitVecVal(int(a[idx]), 8))
+
+    for _ in range(rounds):
+        u = np.array([rng.choice([0, 1, 2, 127, 128, 200, 255]) for _ in range(6)], dtype=np.uint8)
+        w = np.array([rng.choice([0, 1, 5, 100, 255]) for _ in range(6)], dtype=np.uint8)
+        t = np.array([rng.randrange(-50, 50) for _ in range(6)], dtype=np.int64)
+        ix = np.array([rng.randrange(6) for _ in range(6)])
+        for name, sfn, nfn in [
+            ("uint8 negative", lambda: np.negative(bv(u)), lambda: np.negative(u)),
+            ("uint8 + uint8", lambda: np.add(bv(u), bv(w)), lambda: np.add(u, w)),
+            ("uint8 - uint8", lambda: np.subtract(bv(u), bv(w)), lambda: np.subtract(u, w)),
+            ("int64 - uint8", lambda: np.subtract(S.from_concrete(t), bv(u)), lambda: np.subtract(t, u)),
+            ("int64 + negative(uint8)", lambda: np.add(S.from_concrete(t), np.negative(bv(u))), lambda: np.add(t, np.negative(u))),
+        ]:
+            n_checks += 1
+            try:
+                m = _cmp(sfn(), nfn())
+            except Exception as e:  # noqa: BLE001
+                m = f"raised {type(e).__name__}: {e}"
+            if m:
+                failures.append(f"{name}: {m}")
+        for name, ufn, efn in [("subtract.at[int64 <- uint8]", np.subtract, elem.sub), ("add.at[int64 <- uint8]", np.add, elem.add)]:
+            n_checks += 1
+            try:
+                a1 = S.from_concrete(t.copy())
+                S.sym_ufunc_at(efn, a1, _symidx(ix), bv(u))
+                a2 = t.copy()
+                ufn.at(a2, ix, u)
+                m = _cmp(a1, a2)
+            except Exception as e:  # noqa: BLE001
+                m = f"raised {type(e).__name__}: {e}"
+            if m:
+                failures.append(f"{name}: {m}")
     return {"checks": n_checks, "failures": failures}
 
 
